@@ -241,6 +241,9 @@ PROPS = {
                     + ["Akd.Poll." + t for t in ["answers_after_signal", "signalled_is_served", "flush_excludes_requests",
                                                  "answers_not_before_start", "unguarded_witness", "unguarded_witness_blocked"]],
         "streams": ["l1.dir.c13", "l1.sched.read", "l1.sched.poll"],
+        # recorded runs of the poller scenario are replayed on Poll.lean (PollTrace.validate): every epoch read from storage,
+        # every epoch a request was answered from, the number of notifications and the epoch served at the end must agree
+        "post": post_c12,
         "rule": "(c) l1.sched.poll: a writer instance publishes one or two batches while requests (three per task, each started at a "
                 "moment the schedule chooses) are served by a SECOND, read-only instance with its own cache on which the real "
                 "poll_for_azks_changes runs as a daemon task on a paused clock; all schedules up to 2 (one scenario: 3) preemptions, "
